@@ -722,6 +722,8 @@ void abtv_event(int kind, const void *obj, const void *who)
         wb_local_pool_access(obj);
     if (kind == 7 /* ABTV_EV_MEM_LOCAL_POOL_INIT */)
         wb_local_pool_reset(obj);
+    if (((kind >= 1 && kind <= 5) || kind == 8 || kind == 9) && !G.frozen)
+        wb_waitlist_event(kind, obj, who);
     if (G.event_cb)
         G.event_cb(kind, obj, who);
 }
